@@ -27,3 +27,111 @@ pub fn sched_point(site: &'static str) {
         hook(site);
     }
 }
+
+/// True when a scheduling hook is installed on the calling thread.
+#[inline]
+pub fn active() -> bool {
+    HOOK.with(|c| c.borrow().is_some())
+}
+
+/// Lock types whose acquire and release are scheduling points.
+///
+/// Drop-in for the subset of `parking_lot::RwLock` that `DynamicContainer` uses. On a
+/// thread without a hook the wrapper forwards to the parking_lot lock. On a thread with a
+/// hook, acquiring is a scheduling point (`rwlock.read` / `rwlock.write`) followed by a
+/// try-lock loop that reports `rwlock.blocked` to the scheduler instead of blocking, and
+/// dropping a guard is a scheduling point (`rwlock.release`) taken after the release.
+pub mod sync {
+    use super::{active, sched_point};
+    use std::ops::{Deref, DerefMut};
+
+    /// See the module documentation.
+    #[derive(Debug, Default)]
+    pub struct RwLock<T>(parking_lot::RwLock<T>);
+
+    /// Shared guard of [`RwLock`].
+    #[derive(Debug)]
+    pub struct RwLockReadGuard<'a, T>(Option<parking_lot::RwLockReadGuard<'a, T>>);
+
+    /// Exclusive guard of [`RwLock`].
+    #[derive(Debug)]
+    pub struct RwLockWriteGuard<'a, T>(Option<parking_lot::RwLockWriteGuard<'a, T>>);
+
+    impl<T> RwLock<T> {
+        /// New unlocked lock.
+        pub const fn new(value: T) -> Self {
+            Self(parking_lot::RwLock::new(value))
+        }
+
+        /// Shared access; see the module documentation.
+        pub fn read(&self) -> RwLockReadGuard<'_, T> {
+            if !active() {
+                return RwLockReadGuard(Some(self.0.read()));
+            }
+            sched_point("rwlock.read");
+            loop {
+                if let Some(g) = self.0.try_read() {
+                    return RwLockReadGuard(Some(g));
+                }
+                sched_point("rwlock.blocked");
+            }
+        }
+
+        /// Exclusive access; see the module documentation.
+        pub fn write(&self) -> RwLockWriteGuard<'_, T> {
+            if !active() {
+                return RwLockWriteGuard(Some(self.0.write()));
+            }
+            sched_point("rwlock.write");
+            loop {
+                if let Some(g) = self.0.try_write() {
+                    return RwLockWriteGuard(Some(g));
+                }
+                sched_point("rwlock.blocked");
+            }
+        }
+    }
+
+    fn released() {
+        if active() && !std::thread::panicking() {
+            sched_point("rwlock.release");
+        }
+    }
+
+    impl<T> Deref for RwLockReadGuard<'_, T> {
+        type Target = T;
+        #[allow(clippy::expect_used)]
+        fn deref(&self) -> &T {
+            self.0.as_ref().expect("guard is live until dropped")
+        }
+    }
+
+    impl<T> Drop for RwLockReadGuard<'_, T> {
+        fn drop(&mut self) {
+            drop(self.0.take());
+            released();
+        }
+    }
+
+    impl<T> Deref for RwLockWriteGuard<'_, T> {
+        type Target = T;
+        #[allow(clippy::expect_used)]
+        fn deref(&self) -> &T {
+            self.0.as_ref().expect("guard is live until dropped")
+        }
+    }
+
+    impl<T> DerefMut for RwLockWriteGuard<'_, T> {
+        #[allow(clippy::expect_used)]
+        fn deref_mut(&mut self) -> &mut T {
+            self.0.as_mut().expect("guard is live until dropped")
+        }
+    }
+
+    impl<T> Drop for RwLockWriteGuard<'_, T> {
+        fn drop(&mut self) {
+            drop(self.0.take());
+            released();
+        }
+    }
+}
